@@ -18,7 +18,26 @@ pub struct Parser<'a> {
     /// This is used in for-loop init expressions where 'in' separates
     /// the variable from the iterable (for x in obj).
     no_in: bool,
+    /// Nesting budget used on the path from the program root to the construct being parsed.
+    depth: u32,
+    /// Deepest point (in budget units) reached inside the construct currently being parsed.
+    deepest: u32,
+    /// Set once the nesting limit has been hit, so that the failure is reported as such even
+    /// when a speculative parse swallowed the original error.
+    too_deep: bool,
 }
+
+/// Limit on how deeply statements, expressions, patterns and types may nest.
+///
+/// The parser, the compiler and the destructors of the AST are all recursive, so an unbounded
+/// nesting depth is an unbounded native stack depth. Every recursive construct costs
+/// `NEST_COST` units and every link of an operator/member/call chain (`a + b + c`, `a.b.c`,
+/// `f()()()`, `T[][]`), which deepens the tree without recursion in the parser, costs
+/// `CHAIN_COST`; a program whose tree would exceed `MAX_NESTING_BUDGET` is rejected with a
+/// SyntaxError. This allows 256 nested constructs or chains of 4096 links.
+const NEST_COST: u32 = 16;
+const CHAIN_COST: u32 = 1;
+const MAX_NESTING_BUDGET: u32 = 256 * NEST_COST;
 
 impl<'a> Parser<'a> {
     pub fn new(source: &'a str, string_dict: &'a mut StringDict) -> Self {
@@ -29,7 +48,57 @@ impl<'a> Parser<'a> {
             current,
             previous: Token::eof(0, 1, 1),
             no_in: false,
+            depth: 0,
+            deepest: 0,
+            too_deep: false,
         }
+    }
+
+    fn nesting_error(&mut self) -> JsError {
+        self.too_deep = true;
+        JsError::syntax_error(
+            "Nesting too deep",
+            self.current.span.line,
+            self.current.span.column,
+        )
+    }
+
+    /// Run `f` one nesting level deeper; fails instead when the nesting budget is exhausted.
+    #[inline]
+    fn nested<T>(&mut self, f: impl FnOnce(&mut Self) -> Result<T, JsError>) -> Result<T, JsError> {
+        let (depth, deepest) = (self.depth, self.deepest);
+        self.depth = depth + NEST_COST;
+        self.deepest = self.depth;
+        let result = if self.depth > MAX_NESTING_BUDGET {
+            Err(self.nesting_error())
+        } else {
+            f(self)
+        };
+        self.depth = depth;
+        self.deepest = self.deepest.max(deepest);
+        result
+    }
+
+    /// Called where a speculative parse failed and an alternative is about to be tried:
+    /// hitting the nesting limit is final, alternatives must not be explored (each would
+    /// walk into the limit again, doubling the work per level).
+    #[inline]
+    fn speculation_failed(&mut self) -> Result<(), JsError> {
+        if self.too_deep {
+            return Err(self.nesting_error());
+        }
+        Ok(())
+    }
+
+    /// Account for a loop wrapping the tree built so far in one more node
+    /// (everything below it moves one level down).
+    #[inline]
+    fn chain_step(&mut self) -> Result<(), JsError> {
+        self.deepest += CHAIN_COST;
+        if self.deepest > MAX_NESTING_BUDGET {
+            return Err(self.nesting_error());
+        }
+        Ok(())
     }
 
     /// Helper to intern a string in the dictionary
@@ -43,7 +112,12 @@ impl<'a> Parser<'a> {
         let mut body = Vec::new();
 
         while !self.is_at_end() {
-            body.push(self.parse_statement()?);
+            match self.parse_statement() {
+                Ok(stmt) => body.push(stmt),
+                // A speculative parse may have swallowed the original error
+                Err(_) if self.too_deep => return Err(self.nesting_error()),
+                Err(e) => return Err(e),
+            }
         }
 
         Ok(Program {
@@ -60,6 +134,10 @@ impl<'a> Parser<'a> {
     /// - A member expression: @Reflect.metadata
     /// - A call expression: @decorator() or @decorator("arg")
     fn parse_decorator(&mut self) -> Result<Decorator, JsError> {
+        self.nested(Self::parse_decorator_inner)
+    }
+
+    fn parse_decorator_inner(&mut self) -> Result<Decorator, JsError> {
         let start = self.current.span;
         self.require_token(&TokenKind::At)?;
 
@@ -83,6 +161,10 @@ impl<'a> Parser<'a> {
     // ============ STATEMENTS ============
 
     fn parse_statement(&mut self) -> Result<Statement, JsError> {
+        self.nested(Self::parse_statement_inner)
+    }
+
+    fn parse_statement_inner(&mut self) -> Result<Statement, JsError> {
         // Check for decorators first - they can precede class declarations
         if self.check(&TokenKind::At) {
             let decorators = self.parse_decorators()?;
@@ -289,6 +371,10 @@ impl<'a> Parser<'a> {
     }
 
     fn parse_binding_pattern(&mut self) -> Result<Pattern, JsError> {
+        self.nested(Self::parse_binding_pattern_inner)
+    }
+
+    fn parse_binding_pattern_inner(&mut self) -> Result<Pattern, JsError> {
         match &self.current.kind {
             TokenKind::Identifier(_) => {
                 let id = self.parse_identifier()?;
@@ -631,6 +717,10 @@ impl<'a> Parser<'a> {
     }
 
     fn parse_class_declaration(&mut self) -> Result<ClassDeclaration, JsError> {
+        self.nested(Self::parse_class_declaration_inner)
+    }
+
+    fn parse_class_declaration_inner(&mut self) -> Result<ClassDeclaration, JsError> {
         let start = self.current.span;
         self.require_token(&TokenKind::Class)?;
 
@@ -1645,6 +1735,10 @@ impl<'a> Parser<'a> {
 
     /// Parse ambient namespace/module declaration
     fn parse_ambient_namespace_declaration(&mut self) -> Result<(), JsError> {
+        self.nested(Self::parse_ambient_namespace_declaration_inner)
+    }
+
+    fn parse_ambient_namespace_declaration_inner(&mut self) -> Result<(), JsError> {
         // Skip namespace/module
         self.advance();
 
@@ -2094,6 +2188,10 @@ impl<'a> Parser<'a> {
     }
 
     fn parse_assignment_expression(&mut self) -> Result<Expression, JsError> {
+        self.nested(Self::parse_assignment_expression_inner)
+    }
+
+    fn parse_assignment_expression_inner(&mut self) -> Result<Expression, JsError> {
         // Check for yield expression
         if self.check(&TokenKind::Yield) {
             return self.parse_yield_expression();
@@ -2160,7 +2258,7 @@ impl<'a> Parser<'a> {
         self.require_token(&TokenKind::Await)?;
 
         // await always requires an argument
-        let argument = Rc::new(self.parse_unary_expression()?);
+        let argument = Rc::new(self.nested(Self::parse_unary_expression)?);
 
         let span = self.span_from(start);
         Ok(Expression::Await(AwaitExpression { argument, span }))
@@ -2202,7 +2300,8 @@ impl<'a> Parser<'a> {
 
             // Right associativity for ** operator
             let next_prec = if op == BinaryOp::Exp { prec } else { prec + 1 };
-            let right = self.parse_binary_expression(next_prec)?;
+            self.chain_step()?;
+            let right = self.nested(|p| p.parse_binary_expression(next_prec))?;
 
             let span = self.span_from(start);
             left = if is_logical {
@@ -2238,7 +2337,7 @@ impl<'a> Parser<'a> {
 
         if let Some(op) = self.current_unary_op() {
             self.advance();
-            let argument = Rc::new(self.parse_unary_expression()?);
+            let argument = Rc::new(self.nested(Self::parse_unary_expression)?);
 
             // In strict mode, delete on unqualified identifier is a SyntaxError
             if op == UnaryOp::Delete
@@ -2266,7 +2365,7 @@ impl<'a> Parser<'a> {
         // Update expressions (prefix)
         if let Some(op) = self.current_update_op() {
             self.advance();
-            let argument = Rc::new(self.parse_unary_expression()?);
+            let argument = Rc::new(self.nested(Self::parse_unary_expression)?);
             let span = self.span_from(start);
             return Ok(Expression::Update(UpdateExpression {
                 operator: op,
@@ -2306,7 +2405,7 @@ impl<'a> Parser<'a> {
                 // Must be followed by >
                 if self.match_token(&TokenKind::Gt) {
                     // Parse the expression being asserted
-                    let expr = self.parse_unary_expression()?;
+                    let expr = self.nested(Self::parse_unary_expression)?;
                     let span = self.span_from(start);
                     return Ok(Some(Expression::TypeAssertion(TypeAssertionExpression {
                         expression: Rc::new(expr),
@@ -2320,6 +2419,7 @@ impl<'a> Parser<'a> {
                 Ok(None)
             }
             Err(_) => {
+                self.speculation_failed()?;
                 // Not a type, restore position
                 self.current = saved_current;
                 self.lexer.restore(checkpoint);
@@ -2378,6 +2478,7 @@ impl<'a> Parser<'a> {
         let optional_chain_start = start;
 
         loop {
+            self.chain_step()?;
             // Check for call with either ( or < (type arguments)
             if self.check(&TokenKind::LParen) || self.check(&TokenKind::Lt) {
                 // Try to parse as call with type arguments
@@ -2566,6 +2667,7 @@ impl<'a> Parser<'a> {
 
         // Handle member access chain (.prop, [expr])
         loop {
+            self.chain_step()?;
             if self.match_token(&TokenKind::Dot) {
                 if self.match_token(&TokenKind::Hash) {
                     let name = self.parse_private_identifier()?;
@@ -3038,6 +3140,7 @@ impl<'a> Parser<'a> {
                         self.current = type_saved_current;
                         return self.parse_arrow_function_from_params(params, start);
                     }
+                    self.speculation_failed()?;
                     // Not an arrow function, rollback
                     self.lexer.restore(type_checkpoint);
                     self.current = type_saved_current;
@@ -3060,6 +3163,7 @@ impl<'a> Parser<'a> {
                     self.current = type_saved_current;
                     return self.parse_arrow_function_from_params(params, start);
                 }
+                self.speculation_failed()?;
                 // Not an arrow function (could be ternary), rollback
                 self.lexer.restore(type_checkpoint);
                 self.current = type_saved_current;
@@ -3070,6 +3174,7 @@ impl<'a> Parser<'a> {
             self.current = saved_current;
             self.previous = saved_previous;
         } else {
+            self.speculation_failed()?;
             // Failed to parse as params, rollback
             self.lexer.restore(lexer_checkpoint);
             self.current = saved_current;
@@ -3497,6 +3602,7 @@ impl<'a> Parser<'a> {
         let type_args = match self.parse_type_arguments() {
             Ok(args) => args,
             Err(_) => {
+                self.speculation_failed()?;
                 // Not valid type arguments, restore and return None
                 self.lexer.restore(checkpoint);
                 self.current = saved_current;
@@ -3590,6 +3696,10 @@ impl<'a> Parser<'a> {
     // ============ TYPE ANNOTATIONS ============
 
     fn parse_type_annotation(&mut self) -> Result<TypeAnnotation, JsError> {
+        self.nested(Self::parse_type_annotation_inner)
+    }
+
+    fn parse_type_annotation_inner(&mut self) -> Result<TypeAnnotation, JsError> {
         self.parse_conditional_type()
     }
 
@@ -3658,6 +3768,10 @@ impl<'a> Parser<'a> {
     }
 
     fn parse_primary_type(&mut self) -> Result<TypeAnnotation, JsError> {
+        self.nested(Self::parse_primary_type_inner)
+    }
+
+    fn parse_primary_type_inner(&mut self) -> Result<TypeAnnotation, JsError> {
         let start = self.current.span;
 
         match &self.current.kind {
@@ -3671,6 +3785,7 @@ impl<'a> Parser<'a> {
                 });
                 // Array shorthand: keyof T[]
                 while self.check(&TokenKind::LBracket) {
+                    self.chain_step()?;
                     self.advance();
                     if self.check(&TokenKind::RBracket) {
                         self.advance();
@@ -3723,6 +3838,7 @@ impl<'a> Parser<'a> {
                 });
                 // Array shorthand: any[]
                 while self.check(&TokenKind::LBracket) {
+                    self.chain_step()?;
                     self.advance();
                     self.require_token(&TokenKind::RBracket)?;
                     ty = TypeAnnotation::Array(ArrayType {
@@ -3740,6 +3856,7 @@ impl<'a> Parser<'a> {
                 });
                 // Array shorthand: unknown[]
                 while self.check(&TokenKind::LBracket) {
+                    self.chain_step()?;
                     self.advance();
                     self.require_token(&TokenKind::RBracket)?;
                     ty = TypeAnnotation::Array(ArrayType {
@@ -3757,6 +3874,7 @@ impl<'a> Parser<'a> {
                 });
                 // Array shorthand: never[]
                 while self.check(&TokenKind::LBracket) {
+                    self.chain_step()?;
                     self.advance();
                     self.require_token(&TokenKind::RBracket)?;
                     ty = TypeAnnotation::Array(ArrayType {
@@ -3774,6 +3892,7 @@ impl<'a> Parser<'a> {
                 });
                 // Array shorthand: void[]
                 while self.check(&TokenKind::LBracket) {
+                    self.chain_step()?;
                     self.advance();
                     self.require_token(&TokenKind::RBracket)?;
                     ty = TypeAnnotation::Array(ArrayType {
@@ -3791,6 +3910,7 @@ impl<'a> Parser<'a> {
                 });
                 // Array shorthand: null[]
                 while self.check(&TokenKind::LBracket) {
+                    self.chain_step()?;
                     self.advance();
                     self.require_token(&TokenKind::RBracket)?;
                     ty = TypeAnnotation::Array(ArrayType {
@@ -3823,6 +3943,7 @@ impl<'a> Parser<'a> {
 
                     // Array shorthand: string[]
                     while self.check(&TokenKind::LBracket) {
+                        self.chain_step()?;
                         self.advance();
                         self.require_token(&TokenKind::RBracket)?;
                         ty = TypeAnnotation::Array(ArrayType {
@@ -3838,6 +3959,7 @@ impl<'a> Parser<'a> {
 
                     // Array shorthand or indexed access type
                     while self.check(&TokenKind::LBracket) {
+                        self.chain_step()?;
                         self.advance();
                         if self.check(&TokenKind::RBracket) {
                             // Array type: T[]
@@ -3885,6 +4007,7 @@ impl<'a> Parser<'a> {
 
                 // Array shorthand: { a: number }[]
                 while self.check(&TokenKind::LBracket) {
+                    self.chain_step()?;
                     self.advance();
                     self.require_token(&TokenKind::RBracket)?;
                     ty = TypeAnnotation::Array(ArrayType {
@@ -3913,6 +4036,7 @@ impl<'a> Parser<'a> {
                 });
                 // Array shorthand: [string, number][]
                 while self.check(&TokenKind::LBracket) {
+                    self.chain_step()?;
                     self.advance();
                     self.require_token(&TokenKind::RBracket)?;
                     ty = TypeAnnotation::Array(ArrayType {
@@ -3938,6 +4062,7 @@ impl<'a> Parser<'a> {
                 if let Ok(func_type) = self.try_parse_function_type() {
                     return Ok(func_type);
                 }
+                self.speculation_failed()?;
                 // Fall back to parenthesized type
                 self.advance();
                 let inner_ty = self.parse_type_annotation()?;
@@ -3946,6 +4071,7 @@ impl<'a> Parser<'a> {
 
                 // Array shorthand: (number | undefined)[]
                 while self.check(&TokenKind::LBracket) {
+                    self.chain_step()?;
                     self.advance();
                     self.require_token(&TokenKind::RBracket)?;
                     ty = TypeAnnotation::Array(ArrayType {
@@ -4070,6 +4196,7 @@ impl<'a> Parser<'a> {
         let params = match self.parse_function_type_params() {
             Ok(p) => p,
             Err(_) => {
+                self.speculation_failed()?;
                 // Rollback
                 self.lexer.restore(lexer_checkpoint);
                 self.current = saved_current;
